@@ -195,6 +195,8 @@ impl<W, R, T> Runtime<W, R, T> {
                 );
             }
             if usize::from(stats.size) > max_size {
+                // the value is never created, so nobody will return these bytes: take them back now
+                stats.size -= size;
                 Err(RuntimeViolation::AllocationLimitReached)
             } else {
                 Ok(size)
